@@ -142,6 +142,18 @@ def l1(model: Model, rep: Report):
                         problems.append(f"only a slice of the successors is kept: {show(src)}")
                     else:
                         problems.append(f"next layer extended with {show(src)}")
+                def _full_successors(t):
+                    while t[0] == "var" and len(t) == 4:
+                        t = t[3]
+                    if t[0] != "comp" or len(t[3]) != 1:
+                        return False
+                    it_, conds_ = t[3][0]
+                    return (it_ == ("call", ("attr", elem, "get_next_pointers"), (), ()) or it_ == ("attr", elem, "outgoing_pointers")) \
+                        and t[2][0] == "bound" and list(conds_) == [t_not(t_cmp("is", t[2], endpoint))]
+                conj = list(ip.cond[1]) if ip.cond[0] == "and" else [ip.cond]
+                if not good and not exts and any(c_[0] == "not" and _full_successors(c_[1]) for c_ in conj):
+                    # a node without successors inside the branch hands over nothing: the same as handing over the empty list
+                    continue
                 if len(good) != 1:
                     problems.append(f"{len(good)} complete hand-overs of successors on a node path [{show(ip.cond)}]")
                 else:
